@@ -510,6 +510,23 @@ class Executor(Evaluator):
                 return self.materialize(st, args[0], "array")
             if attr == "equal":
                 return self.compare(st, ast.Eq(), args[0], args[1])
+            if attr == "argsort":
+                # a permutation of the indices that sorts the array (ties in any order: A-NUMPY)
+                src = self.to_aexpr(st, args[0])
+                n = src.shape[0]
+                if src.ndim != 1 or not isinstance(n, int):
+                    raise Unsupported("np.argsort outside unroll mode")
+                obj = ArrObj("argsort", "i64", [n])
+                term = obj.fresh_term()
+                st.heap[obj.id] = term
+                cells = [z3.Select(term, z3.IntVal(k)) for k in range(n)]
+                for c in cells:
+                    st.pc.append(z3.And(c >= 0, c < n))
+                if n > 1:
+                    st.pc.append(z3.Distinct(*cells))
+                for k in range(n - 1):
+                    st.pc.append(zint(src.fn([cells[k]])) <= zint(src.fn([cells[k + 1]])))
+                return Arr(obj)
             if attr in ("zeros", "empty", "ones", "full"):
                 shape = args[0]
                 shape = list(shape) if isinstance(shape, tuple) else [shape]
